@@ -19,7 +19,7 @@ VALUES = {
 SLOTS = ["time", "measurement", "tag_key", "tag_value", "field_key", "field_value", "tags", "fields"]
 ENTRIES = ["constructor", "setter", "insert", "update_static", "update_callable", "update_callable_indexed",
            "update_callable_same_key", "update_callable_later_point", "update_static_pairs", "update_static_both",
-           "insert_same_object_twice"]
+           "insert_same_object_twice", "update_static_falsy"]
 
 
 def hashable(v):
@@ -156,6 +156,14 @@ class Family:
                         return "skip", None
                     other = {"fields": {"ok": 1}} if "tags" in kw else {"tags": {"ok": "yes"}}
                     db.update_all(**kw, **other)
+                elif entry == "update_static_falsy":
+                    # a falsy value of the wrong type (0, "", [], False, 0.0) next to a valid argument: `None` means
+                    # "not given", nothing else does
+                    if slot not in ("time", "measurement", "tags", "fields") or v is None or bool(v):
+                        return "skip", None
+                    db.insert(base)
+                    other = {"fields": {"ok": 1}} if slot != "fields" else {"tags": {"ok": "yes"}}
+                    db.update_all(**{slot: v}, **other)
                 elif entry == "insert_same_object_twice":
                     # a generator hands over the same Point object twice, editing it in between (a reused row buffer)
                     # (CSV only: MemoryStorage holds the caller's object, which the caller then edits)
